@@ -95,12 +95,14 @@ RemoveStore(s, R) == PointsAt(s, SortedPos((1..Len(s)) \ R))
 (*   tgk, tgv tags:   0 absent | 1 static mapping tgv | 2 callable returning mapping tgv   *)
 (*                    | 3 callable returning {k : successor of old[k]} for the keys of tgv *)
 (*                      that the point has with a proper (non-None) value                  *)
+(*                    | 4 callable that modifies the mapping it is given in place (sets    *)
+(*                      the entries of tgv) and returns that same object                   *)
 (*   fdk, fdv fields: likewise                                                             *)
 (*   utg, ufd sequences of tag / field keys to unset                                       *)
 (* A mapping is a sequence over the key indices with Missing for absent.   *)
 MergeMap(old, kind, new) ==
   CASE kind = 0 -> old
-    [] kind \in {1, 2} -> [k \in DOMAIN old |-> IF new[k] # Missing THEN new[k] ELSE old[k]]
+    [] kind \in {1, 2, 4} -> [k \in DOMAIN old |-> IF new[k] # Missing THEN new[k] ELSE old[k]]
     [] kind = 3 -> [k \in DOMAIN old |-> IF new[k] # Missing /\ IsVal(old[k]) THEN old[k] + 1 ELSE old[k]]
 Unset(map, keys) == [k \in DOMAIN map |-> IF k \in Ran(keys) THEN Missing ELSE map[k]]
 
